@@ -9,6 +9,11 @@ explicit configuration data by the Lean driver only):
          | err LexicalError <line> <col>
   tokv (same request)     -> ok <name>:<value>;...          diagnostic only (names/values are not C04)
   got  <s|l> <text> sl sc el ec   -> ok <text> | err AssertionError       (get_orig_text of any span)
+  ptree cfg=<i> g=<j> smart=<0|1> <spanKinds> <synonyms> <keywords> <endName> <s|l|t> <text> <re-table>
+       <names> <groups> <skip> <start> <prods>
+        -> ok sl.sc.el.ec/<get_orig_text>;... (all nodes of the raw tree, pre-order) | err ParsingError <l> <c>
+         | err LexicalError <l> <c>      the model builds the parser from the productions (LL model of C01),
+           tokenizes and parses by itself, carrying the positions through every roll-back
   tree cfg=<i> g=<j> smart=<0|1> <spanKinds> <synonyms> <keywords> <endName> <skip> <s|l> <text>
        <re-table> <shape>  -> ok sl.sc.el.ec/<get_orig_text>;...   (all nodes of the raw tree, pre-order)
 
@@ -29,8 +34,9 @@ READY = True
 THEOREMS = [
     "C04.bases_std", "C04.tok_adjacent", "C04.tok_line_start", "C04.tok_monotone", "C04.tok_orig_text",
     "C04.orig_text_exact", "C04.node_span", "C04.lex_error_line", "C04.tok_cover", "C04.tok_cover_unique",
-    "C04.end_token", "C04.node_span_unique", "C04.node_orig_text", "C04.lex_error_first",
-    "C04.lex_error_complete", "C04.lex_error_unique", "C04.no_out_of_fuel", "C04.ex_reIn", "C04.ex_tokens",
+    "C04.end_token", "C04.node_span_unique", "C04.node_orig_text", "C04.parse_is_ll_run",
+    "C04.parse_node_span", "C04.parse_node_orig_text", "C04.parse_error_pos", "C04.lex_error_first", "C04.lex_error_complete",
+    "C04.lex_error_unique", "C04.no_out_of_fuel", "C04.ex_reIn", "C04.ex_tokens",
 ]
 RULE = ("distinct by protocol text; non-trivial = the text has at least two tokens besides $END$, or a lexical "
         "error, or more than one line")
@@ -120,7 +126,16 @@ GRAMMARS = [
     {"E": [("W", "X", "R")], "X": [("P", "Q")], "P": [("N",), ()], "Q": [("S",), ()], "R": [("W", "X"), ()]},
     # a ProdSequence node (flattened by parse() itself: a leaf whose value is the list of matched elements)
     {"E": [("SEQ", "S", "E"), ()], "SEQ": ("ProdSequence", "W", "A"), "A": [("N", "N"), ("N",)]},
+    # --- grammars that really backtrack: an empty alternative / empty first child is reached by ROLL-BACK after
+    # another alternative consumed >= 1 token and failed (the parse table has two entries for the look-ahead)
+    {"E": [("LABEL", "ST", "E"), ()], "LABEL": [("W", "S"), ()], "ST": [("W", "ARGS", "N"), ("N",)],
+     "ARGS": [("W", "ARGS"), ()]},                                         # optional label `w ;` before a statement
+    {"E": [("LABEL", "W", "N")], "LABEL": [("W", "S"), ()]},                 # the nullable symbol is the root's first child
+    {"E": [("A", "S"), ("B", "N")], "A": [("W", "OPT", "W")], "B": [("W", "OPT")], "OPT": [("N", "S"), ()]},
+    {"E": [("P", "Q", "E"), ()], "P": [("W", "W", "S"), ("W", "N"), ()], "Q": [("W", "S"), ("W",), ("N",)]},
+    {"E": [("X", "Y")], "X": [("W", "N", "X"), ()], "Y": [("W", "N", "S"), ("W", "S"), ()]},   # fails two tokens late
 ]
+BACKTRACKING = (9, 10, 11, 12, 13)
 
 
 def _names(cfg):
@@ -285,6 +300,8 @@ def _show(e, text):
 def _err(e):
     if isinstance(e, _ll().LexicalError):
         return "err LexicalError %d %d" % e.src_pos.coords
+    if isinstance(e, _ll().ParsingError):
+        return "err ParsingError %d %d" % e.src_pos.coords
     return "err " + type(e).__name__
 
 
@@ -346,9 +363,9 @@ def impl(case):
                 sl, sc, el, ec = map(int, f[3:7])
                 e = ll.TElement("X", "v", start_pos=ll.SrcPos("t", sl, sc), end_pos=ll.SrcPos("t", el, ec))
                 out.append("ok " + enc_str(e.get_orig_text(text)))
-            elif f[0] == "tree":
+            elif f[0] in ("tree", "ptree"):
                 ci, gi, smart = (int(x.split("=")[1]) for x in f[1:4])
-                text = _dec_input(f[9], f[10])
+                text = _dec_input(f[9], f[10]) if f[0] == "tree" else _dec_input(f[8], f[9])
                 root = _parser(ci, gi, smart).parse(text, do_cleanup=False, src_name="t")
                 out.append("ok " + ";".join(_show(e, text) for e in _walk(root)))
             else:
@@ -423,6 +440,25 @@ def _skip_ids(ci, gi):
     return ",".join(str(nid[n]) for n in sorted(p.skip_tokens)) or "-"
 
 
+def _grammar_fields(cfg, gi):
+    """<names> <groups> <skip> <start> <prods> of a `ptree` line: token names first (ids of `_nid`), then the
+    non-terminals"""
+    names = _names(cfg)
+    prods = _productions(cfg, gi)
+    for k, alts in prods.items():
+        for s in (k,) + tuple(x for a in alts for x in a):
+            if s not in names:
+                names.append(s)
+    nid = {n: i for i, n in enumerate(names)}
+    rx = _rx(cfg)[0]
+    groups = ",".join(str(nid[g]) for g in rx.groupindex)
+    skip = cfg.get("skip")
+    skipf = "-" if skip is None else (",".join(str(nid[x]) for x in skip) or "()")
+    pf = ";".join("%d=%s" % (nid[k], "|".join(".".join(str(nid[x]) for x in a) or "~" for a in alts))
+                  for k, alts in prods.items())
+    return "%s %s %s %d %s" % ("|".join(enc_str(n) for n in names), groups, skipf, nid["E"], pf)
+
+
 def make_case(params, meta=None):
     """params: cfg (index), kind ('s'|'l'), text (str | list of str), g (grammar index | None),
     gots (list of [sl, sc, el, ec])"""
@@ -437,6 +473,11 @@ def make_case(params, meta=None):
     for sp in params.get("gots", []):
         lines.append("got %s %d %d %d %d" % ((inp,) + tuple(sp)))
     m = dict(meta or {})
+    if gi is not None and not any(isinstance(v, tuple) for v in GRAMMARS[gi].values()):
+        # the model builds the parser from the productions and parses by itself (LL model of C01 + positions)
+        gf = _grammar_fields(cfg, gi)
+        for smart in (1, 0):
+            lines.append("ptree cfg=%d g=%d smart=%d %s %s %s %s" % (ci, gi, smart, cf, inp, tbl, gf))
     if gi is not None:
         for smart in (1, 0):
             try:
@@ -618,7 +659,8 @@ def oracle(case, replies):
                 if not kids:
                     if kids is not None:
                         want = (ns[k].start_pos.coords,) * 2
-                        what = "node-empty: empty node %s is not an empty span at the following token" % e.name
+                        what = ("node-empty: empty node %s is not an empty span at the token that follows it (the first "
+                                "token not consumed by the nodes before it)" % e.name)
                     else:
                         if k >= len(ns) - 1 or ns[k].name != e.name:
                             return "node-leaf: leaf %s is not the next token" % e.name
@@ -765,6 +807,8 @@ def gen_cases(rng, tier):
         ci = rng.randrange(len(CONFIGS))
         cfg = CONFIGS[ci]
         gi = rng.randrange(len(GRAMMARS)) if rng.random() < 0.7 else None
+        if gi is not None and rng.random() < 0.25:
+            gi = rng.choice(BACKTRACKING)
         s, mode = _gen_text(rng, cfg, gi, tier)
         kind = rng.choice("sssslllt")
         text = s if kind == "s" else s.split("\n")
@@ -863,29 +907,44 @@ def tags(case, replies):
     for l, rep in zip(case["lines"], replies):
         if l.startswith("got "):
             yield "got:" + rep.split()[0] + ("" if rep.startswith("ok") else ":" + rep.split()[1])
+        if l.startswith("ptree "):
+            yield "ptree:" + (" ".join(rep.split()[:2]) if rep.startswith("err") else "ok")
+            if rep.startswith("err ParsingError") and r.startswith("ok") and rep.split()[2:] != r[3:].split(";")[0].split("/")[0].split(".")[:2]:
+                yield "ptree:ParsingError-not-at-first-token"
         if l.startswith("tree ") and "e" in l.split()[-1]:
             yield "has:empty-node"
+            if p.get("g") in BACKTRACKING:
+                yield "has:empty-node-in-backtracking-grammar"
+                if l.split()[-1].startswith("(e"):
+                    yield "has:empty-first-child-of-root-in-backtracking-grammar"
 
 
 LEVEL_TEXT = (
-    "Proved in Lean 4 for all texts, all answers of `re` and all tokenizer configurations, on an executable model of "
-    "_Tokenizer.tokenize / TElement.get_orig_text / the node-span code of LLParser.parse whose position offsets are "
-    "regenerated from ak/llparser.py on every run: adjacency within a line, column 1 / later line for the first token "
-    "of a line, monotone non-empty spans, get_orig_text = lexeme (span token: region opener..closer) = slice of the "
-    "whole text by character offsets (str with rstrip and list-of-lines input), the tokens cover every character, "
-    "node span = (start of first token, end of last token) or empty at the following token for every node of every "
-    "tree shape, get_orig_text of nodes, LexicalError at the first reachable unmatched character (line 1-based, column "
-    "0-based) and its converse, totality (fuel) of the model. Model = code is established by a differential run of "
-    "the compiled model against the real tokenizer, get_orig_text and parser (6 configurations, 9 grammars incl. a ProdSequence, both "
-    "smart_factorization values, str and list input); the oracle restates the property on the real objects.")
+    "Proved in Lean 4 for all texts, all answers of `re`, all tokenizer configurations and all grammars, on an "
+    "executable model of _Tokenizer.tokenize / TElement.get_orig_text / LLParser.parse (the LL stack machine of the "
+    "C01 model with the positions the code attaches while parsing) whose position offsets are regenerated from "
+    "ak/llparser.py on every run: adjacency within a line, column 1 / later line for the first token of a line, "
+    "monotone non-empty spans, get_orig_text = lexeme (span token: region opener..closer) = slice of the whole text by "
+    "character offsets (str with rstrip and list-of-lines input), the tokens cover every character exactly once, "
+    "node span = (start of first token, end of last token) or empty at the first token not consumed before it, for "
+    "every node of every tree the parse can return through any roll-backs (parse_node_span) and for every tree "
+    "shape (node_span), get_orig_text of nodes, LexicalError at the first and only reachable unmatched character "
+    "(line 1-based, column 0-based) and its converse, ParsingError.src_pos = start of a token, totality (fuel) of the "
+    "tokenizer model. Model = code is established by a differential run of the compiled model against the real "
+    "tokenizer, get_orig_text and parser (6 configurations, 14 grammars incl. 5 that roll back into empty "
+    "alternatives and a ProdSequence, both smart_factorization values, str / list / tuple input); the oracle restates "
+    "the property on the real objects.")
 LEVEL_NOTE = (
     "Kernel-checked theorems (C04.*): tok_adjacent, tok_line_start, tok_monotone, tok_orig_text, orig_text_exact, "
-    "tok_cover, tok_cover_unique, end_token, node_span, node_span_unique, node_orig_text, lex_error_line, lex_error_first, lex_error_complete, lex_error_unique, "
-    "no_out_of_fuel, bases_std (generated offsets). Rest on the sampled correspondence only: that the model's "
-    "control flow is the code's (incl. rstrip/split of str input, synonyms/keywords, the suffix splice which the model "
-    "sees only as the final tree shape), and that `re` behaves as a function of (line, column) ending inside the line "
-    "(hypothesis ReIn, checked by the driver on every request). Tree shapes are taken from the real parser (the LL "
-    "parser itself is C01-C03); list/map templates and ParsingError.src_pos are not covered here; spans "
+    "tok_cover, tok_cover_unique, end_token, node_span, node_span_unique, node_orig_text, parse_is_ll_run (forgetting "
+    "positions gives the run of the LL model of C01), parse_node_span, parse_node_orig_text, parse_error_pos, "
+    "lex_error_line, lex_error_first, lex_error_complete, lex_error_unique, no_out_of_fuel, bases_std (generated "
+    "offsets). Hypotheses discharged at run time by the driver on every request: ReIn (every match ends inside its "
+    "line: tableOk), parserOk (suffix symbols are not terminals, $END$ is). Rest on the sampled correspondence only: "
+    "that the model's control flow is the code's (rstrip/split of str input, synonyms/keywords, LL.construct = the "
+    "constructor, which is C01-C03's subject), that `re` behaves as a function of (line, column), the flattening of "
+    "ProdSequence nodes (tree lines take the shape from the real parser there); list/map templates are C05; spans "
     "after cleanup are checked by the oracle only.")
-TECHNIQUE = ("Lean 4 theorems (relational run of the scanner, induction over runs / tree shapes) over a segmentation "
-             "supplied by `re` + translator for the position offsets + correspondence check + property oracle")
+TECHNIQUE = ("Lean 4 theorems (relational run of the scanner; invariant of the positioned LL stack machine, simulation "
+             "to the LL model of C01; induction over tree shapes) over a segmentation supplied by `re` + translator for "
+             "the position offsets + correspondence check + property oracle")
